@@ -78,7 +78,7 @@ def run(module, consts=None, *, workers=None, simulate=None, depth=None, seed=No
         with open(cfgp, "w") as f:
             f.write(cfg({k: ("<-", "MC_" + k) for k in consts}, **cfgkw))
         w = str(workers or (1 if simulate else min(16, os.cpu_count() or 4)))
-        cmd = ["java", "-XX:+UseParallelGC", "-Xmx6g", "-DTLA-Library=" + SPEC_DIR, "-cp", JAR, "tlc2.TLC",
+        cmd = ["java", "-XX:+UseParallelGC", "-Xmx6g", "-Xss64m", "-DTLA-Library=" + SPEC_DIR, "-cp", JAR, "tlc2.TLC",
                "-workers", w, "-metadir", os.path.join(work, "meta"), "-noGenerateSpecTE", "-config", cfgp]
         if not deadlock:
             cmd += ["-deadlock"]
@@ -108,7 +108,9 @@ def run(module, consts=None, *, workers=None, simulate=None, depth=None, seed=No
                or "Overflow when computing" in res.out
                or ("Error:" in res.out and not res.violation))
         if bad and not expect_error:
-            raise TlcError("TLC failed on %s:\n%s" % (module, res.out[-4000:]))
+            i = res.out.find("Error:")
+            lines = [l[:400] for l in res.out[max(i, 0):].splitlines() if not l.startswith('"[') and not l.startswith("  |")]
+            raise TlcError("TLC failed on %s:\n%s" % (module, "\n".join(lines[:60])))
         if p.returncode != 0 and not res.violation and not expect_error:
             raise TlcError("TLC exit %d on %s:\n%s" % (p.returncode, module, res.out[-4000:]))
         return res
